@@ -301,7 +301,8 @@ func c04Run(r *core.Run) {
 		}
 
 		keyNames := []string{"k1", "k2", "k3", "a1", "a2", "a3", "a4", "kt", "nosuchkey"}
-		identNames := []string{"client-fp-1", "client-fp-2", "client-unknown-1", "ca-1-client-a", "ca-1-client-expired", "ca-2-client-a", ""}
+		identNames := []string{"client-fp-1", "client-fp-2", "client-unknown-1", "ca-1-client-a", "ca-1-client-expired", "ca-2-client-a",
+			"ca-1-client-a", "ca-1-client-a-self", "ca-1-client-a-otherca", "ca-1-client-a-lapsed", ""}
 		var signed []map[string]string // expectations for audit records
 		for i := 0; i < nreq; i++ {
 			var q c04Req
